@@ -261,10 +261,51 @@ def case_invariant_order(seed, idx, res):
     res["distinct"].append(f"inv:{idx}")
 
 
+def case_frontier_isolation(seed, idx, res):
+    """the invariant is checked on every frontier state with that state's constraints only: sibling states produced by one transaction carry
+    contradicting constraints (x <= T on one, x > T on the other).  Ground truth from the explicit-state oracle of lib/invgen2.py: an invariant
+    that some call sequence breaks must FAIL, whichever state is visited first."""
+    import invgen2
+
+    rng = random.Random(f"c20-{seed}-frontier-{idx}")
+    c = invgen2.make_case(rng, kind=rng.choice(["setter", "setter", "flags", "counter"]), depth=rng.choice([1, 2]), filters={})
+    ov = dict(invariant_depth=c.depth, solver_timeout_branching=3.0)
+    out = A.run(A.make_ctx(c.test, funsigs=[f.sig for f in c.invs], overrides=ov, others=list(c.others)))
+    res["counters"]["evaluations"] += 1
+    res["counters"]["frontier_isolation_cases"] += 1
+    if out.exception or len(out.results) != len(c.invs):
+        res["counters"]["run_failed"] += 1
+        return
+    orc = invgen2.oracle(c, c.depth, max_nodes=2000)
+    for f, r in zip(c.invs, out.results):
+        seq = orc["inv"].get(f.sig)
+        if seq is not None:
+            res["counters"]["frontier_breaks_expected"] += 1
+            if r.exitcode == 0 and not out.warnings():
+                res["violations"].append(dict(what="an invariant that a call sequence breaks is reported PASS: a frontier state was checked under constraints that belong to another state",
+                                              key="frontier-state-contamination", index=idx, test=f.sig, kind=c.kind, depth=c.depth, sequence=[x.describe() for x in seq]))
+                return
+    res["distinct"].append(f"frontier:{idx}")
+
+
 def case_siblings(seed, idx, res):
     """every yielded path, re-executed alone with a model of the path as concrete input"""
     rng = random.Random(f"c20-{seed}-sib-{idx}")
-    kind = rng.choice(["single", "single", "calls", "creates", "concretize", "twofail"])
+    kind = rng.choice(["single", "single", "calls", "creates", "concretize", "twofail", "transient-branch"])
+    if kind == "transient-branch":
+        # one side of a symbolic branch writes transient (and persistent) storage, both sides then read it: the side explored later must not see
+        # the other side's writes
+        from asm import asm
+
+        w1 = [0x2A, 1, "TSTORE", 0x2B, 1, "SSTORE"]
+        w2 = [7, 2, "TSTORE"] if rng.random() < 0.5 else []
+        tail = [1, "TLOAD", 0x200, "MSTORE", 1, "SLOAD", 0x220, "MSTORE", 2, "TLOAD", 0x240, "MSTORE", 0x60, 0x200, "RETURN"]
+        # one side writes slot 1 (transient and persistent), the other side only reads it (and may write another slot); both orders
+        first, second = (w1, w2) if rng.random() < 0.6 else (w2, w1)
+        toks = [4, "CALLDATALOAD", rng.choice([1, 2, 0x80]), "AND", "@odd", "JUMPI"] + first + tail + [":odd"] + second + tail
+        case = diffcore.Case({0x1000: asm(toks)}, ncd=2, label="transient-branch", overrides={"storage_layout": rng.choice(["solidity", "generic"])})
+        res["counters"]["transient_branch_programs"] += 1
+        kind = "custom"
     if kind == "twofail":
         # a callee that fails on two (or three) different paths, a caller that swallows the failure and then counts in persistent and transient
         # storage: every failing path must resume the caller on its own copy of the pre-call state
@@ -300,7 +341,8 @@ def case_siblings(seed, idx, res):
         res["counters"]["concretization_programs"] += 1
     elif kind != "custom":
         case = workloads.make_case(kind, rng)
-    r = symrun.run_symbolic(case.contracts, target=case.target, ncd=case.ncd)
+    sargs = symrun.make_args(**case.overrides) if getattr(case, "overrides", None) else None
+    r = symrun.run_symbolic(case.contracts, target=case.target, ncd=case.ncd, args=sargs)
     if r.crash or r.budget_exceeded or len(r.paths) < 2:
         return
     res["counters"]["evaluations"] += 1
@@ -323,7 +365,7 @@ def case_siblings(seed, idx, res):
         if v != "sat":
             continue
         got = dict(zip(keys, vals))
-        solo = symrun.run_symbolic(case.contracts, target=case.target, ncd=case.ncd,
+        solo = symrun.run_symbolic(case.contracts, target=case.target, ncd=case.ncd, args=sargs,
                                    concrete=dict(cd=inp.cd, caller=inp.caller, origin=inp.origin, value=inp.value, balances=inp.balances))
         res["counters"]["sibling_pairs"] += 1
         if solo.crash or len(solo.paths) != 1:
@@ -356,7 +398,7 @@ def worker(task):
     kind, lo, hi, seed = task
     res = new_result()
     for idx in range(lo, hi):
-        {"ord": case_order, "uid": case_uid, "two": case_two_contracts, "inv": case_invariant_order, "sib": case_siblings}[kind](seed, idx, res)
+        {"ord": case_order, "uid": case_uid, "two": case_two_contracts, "inv": case_invariant_order, "sib": case_siblings, "frontier": case_frontier_isolation}[kind](seed, idx, res)
     return res
 
 
@@ -372,12 +414,12 @@ def main():
         res = new_result()
         install()
         key = w.get("key", "")
-        fn = case_siblings if key == "sibling-contamination" else case_uid if key == "uid-dependence" else case_two_contracts if key == "process-global-state" else case_invariant_order if key.startswith("invariant") else case_order
+        fn = case_frontier_isolation if key == "frontier-state-contamination" else case_siblings if key == "sibling-contamination" else case_uid if key == "uid-dependence" else case_two_contracts if key == "process-global-state" else case_invariant_order if key.startswith("invariant") else case_order
         fn(run.seed, w["index"], res)
         run.merge(res)
         run.finish()
     tasks = []
-    for kind, (q, t, step) in dict(ord=(36, 900, 1), uid=(16, 300, 2), two=(12, 300, 2), inv=(10, 200, 2), sib=(120, 2000, 6)).items():
+    for kind, (q, t, step) in dict(ord=(36, 900, 1), uid=(16, 300, 2), two=(12, 300, 2), inv=(10, 200, 2), sib=(120, 2000, 6), frontier=(16, 300, 2)).items():
         n = run.n(q, t)
         tasks += [(kind, lo, min(n, lo + step), run.seed) for lo in range(0, n, step)]
     run_pool(run, worker, tasks, soft_timeout=900)
@@ -386,6 +428,7 @@ def main():
     run.require("uid_seed_triples", 8)
     run.require("contract_pairs", 6)
     run.require("sibling_pairs", 50)
+    run.require("frontier_breaks_expected", 8)
     run.finish()
 
 
